@@ -38,3 +38,19 @@ Definition guards (x : config * option stage * fs) : list bool :=
 
 Definition run (cases : list ((config * option stage * fs) * obs)) : list N :=
   report obs_eqb model_obs guards cases.
+
+(* inner I/O failure cases: outcome 3 = the injected OSError propagated (with the stage it hit) *)
+Definition model_obs_io (x : config * str * fs) : obs :=
+  match x with
+  | (c, name, s) =>
+      let r := generate_io c name s in
+      let s' := fst r in
+      let oc := match snd r with Returned o => outcome_code o | FailIO st => (3, Some st) end in
+      (fst oc, snd oc, events s (plan_io c name s),
+       map fst (filter (fun kv => under (root c) (fst kv) && negb (exists_b s (fst kv))) s'),
+       map fst (filter (fun kv => under (root c) (fst kv) && negb (exists_b s' (fst kv))) s))
+  end.
+Definition guards_io (x : config * str * fs) : list bool :=
+  match x with (c, name, s) => [wf_pkg c; guard_F10b c; guard_F10c c name s] end.
+Definition run_io (cases : list ((config * str * fs) * obs)) : list N :=
+  report obs_eqb model_obs_io guards_io cases.
